@@ -42,31 +42,38 @@ def main(tier, args):
               rule="three BFS explorations over ALL op histories on the real classes, canonical-state dedup, oracle for every explored history + ASan/UBSan. "
                    "(a) Cabinet, configurations %s (name:depth bound:processes; a search is dealt out to its processes by canonical state at depth 6, a state "
                    "reached from two shares is counted twice; wrap = the id counter starts two below its maximum so ids run max-1, max, 1, 2..; reserveN = reserve(N) first; "
-                   "basic = without object-less entries): alloc(obj), alloc() without object, free(t)/update(t,obj)/update(t,nullptr) for every token ever issued (stale included), "
-                   "clear, reserve(two beyond the cells in use) and reserve(1), foreach with removal (all/even/odd/next-to-visit/previously-visited/none), null-token free/update; for every explored "
+                   "reserve-mid = the spare capacity of the cell vector, capped at 3, is part of the state key; basic = without object-less entries): alloc(obj), alloc() without object, free(t)/update(t,obj)/update(t,nullptr) for every token ever issued (stale included), "
+                   "clear, reserve(two beyond the cells in use) and reserve(1) (capacity is not in the state key, so a history ending in reserve is judged but not extended - "
+                   "except in the reserve-mid lane, where everything may follow a reserve, also after clear/free/growth), foreach with removal (all/even/odd/next-to-visit/previously-visited/none), null-token free/update; for every explored "
                    "history at(t) and operator[] for every token ever issued, size()/empty(), live tokens pairwise distinct as (id,pos) pairs and as keys of a std::set and a "
                    "std::unordered_set (stale ones not found there), for every token issued ==,!=,<,<=,>,>=,less,equal,hash,std::hash,bool,reset against the (id,pos) pairs "
                    "(strict order: trichotomy and transitivity over all tokens held; the order itself is not prescribed), foreach delivers every live object once and "
-                   "never more null pointers than there are object-less entries; the return-value clauses run at every op of a replay, the pairwise and "
+                   "never more null pointers than there are object-less entries; inside a foreach callback, right after every free it performs, at()/operator[] for every "
+                   "token ever issued and size()/empty() are judged again (the entry is gone at once, not when foreach returns); the return-value clauses run at every op of a replay, the pairwise and "
                    "container clauses after its last op (every prefix of an explored history is itself an explored history); state = last_id_, first_free_, count_, all cells "
-                   "(id or free link), all tokens held with model status (live with object / live without / freed / cleared). "
+                   "(id or free link), all tokens held with model status (live with object / live without / freed / cleared); the private fields are read through engine/probe.h "
+                   "(a missing one is reported as '@INFO missing-member', the key then also carries the last four ops; the wrap lane reports itself skipped with a @CAP if last_id_ is gone). "
                    "(b) ObjectPool<T> depth<=%d, T in {16-byte two-word probe, 1-byte probe (smaller than the free-list link), 17-byte alignment-1 probe, 40-byte probe} x "
-                   "keep_number in {0,1,2,default max}: alloc(int), alloc() without arguments, alloc whose constructor allocates a child from the "
-                   "same pool, free(each live object), free(each live object) whose destructor frees another live object of the pool (all ordered pairs); the probes count "
+                   "keep_number in {0,1,2,default max}: alloc(int), alloc() without arguments, alloc whose constructor THROWS (no live object, no destructor, counted apart; the history continues), "
+                   "re-entrancy in all four combinations - constructor allocates a child / frees a live object, destructor frees a live object (either neighbour in the live list) / allocates - "
+                   "and two levels deep (constructor->alloc->constructor->alloc, destructor->free->destructor->free, destructor->alloc->constructor->free), free(each live object); "
+                   "storage counts as in use from the start of its constructor to the end of its destructor; the probes count "
                    "ctor/dtor and stamp every byte they own (which includes the bytes the free list reuses); state = keep_number_, free_number_, length of the parked chain, "
                    "number of live objects (blocks are interchangeable for the pool: states are identified up to renaming of blocks; every chain clause - length, duplicates, live or "
-                   "unknown blocks on it - is evaluated after every op, and every live object is offered to free() in every state). "
-                   "(c) util::Fd depth<=%d (reaches a fixpoint earlier), %s handle variables x descriptor numbers (0, 1000, 1001; re-issued only after close; kept from the kernel by the "
-                   "::close seam), closes recorded WITH THEIR CHANNEL - the injected CloseFunc (cf lanes) or the interposed ::close (sys lanes; in either lane any ::close issued during "
-                   "an Fd operation is recorded, whatever its argument): Fd(fd[,cf]), Fd(-1[,cf]) (holds nothing, never closes), Fd::Open of a missing file (null handle) and of "
+                   "unknown blocks on it - is evaluated after every op, and every live object is offered to free() in every state; the chain clauses are additional and are switched off, "
+                   "with an '@INFO missing-member', if free_header_/Block::next disappear - in-use, count and stamp clauses do not need them). "
+                   "(c) util::Fd depth<=%d (reaches a fixpoint earlier), lanes %s, %s handle variables x descriptor numbers (3x2: 0 and 1000; 4x3: 0, 1000 and 1001; re-issued only after close; kept from the kernel by the "
+                   "::close seam), closes recorded WITH THEIR CHANNEL - the injected CloseFunc (cf lanes) or the interposed ::close (sys lanes, and cfnull lanes where the two-argument "
+                   "constructor is given an empty CloseFunc / nullptr; in every lane any ::close issued during an Fd operation is recorded, whatever its argument); in the ':fail' lanes "
+                   "the seam answers every such ::close with -1 and errno EINTR / EIO in turn, the model is unchanged (one call per record, get()==-1 after close()): Fd(fd[,cf]), Fd(-1[,cf]) (holds nothing, never closes), Fd::Open of a missing file (null handle) and of "
                    "/dev/null (a kernel descriptor, closed through ::close in both lanes, one at a time), default/copy/move construct, copy/move assign, self-assign, swap, "
                    "self-swap, reset, close, destroy; every history ends by destroying all handles; state = variable->record map, per record fd/ref_count/close_func"
-                   % (" ".join("%s:%d:%d" % (n, d, k) for n, _, d, k in cab), dp, df, "3x2" if quick else "3x2 and 4x3"),
+                   % (" ".join("%s:%d:%d" % (n, d, k) for n, _, d, k in cab), dp, df, " ".join(fdcfg), "3x2" if quick else "3x2 and (lanes ending in :4:3) 4x3"),
               assumptions=["Cabinet: foreach callbacks only remove; tokens are the ones the cabinet issued (no forged tokens); one cabinet at a time; "
                            "after the id counter has wrapped the search stays far below 2^64 further allocations, so no id is issued twice",
                            "object identity is not part of the cabinet canonical state beyond 'has an object / has none' (no control flow depends on obj_ptr)",
-                           "ObjectPool: constructors and destructors do not throw, malloc never fails; re-entrancy is one level deep "
-                           "(a constructor allocates one child, a destructor frees one other object); stat_ is not part of the state (no control flow reads it)",
+                           "ObjectPool: destructors do not throw, malloc never fails; a constructor that throws does so before it has written anything; re-entrancy is at most two "
+                           "levels deep; a block lost to a throwing constructor is not looked for (leak detection is off); stat_ is not part of the state (no control flow reads it)",
                            "Fd: single-threaded use; the CloseFunc does not call back into the handle; descriptor numbers other than the one obtained from "
                            "Fd::Open(\"/dev/null\") never reach the kernel",
                            "LifetimeTag (anchor file) is not exercised by this check"])
